@@ -177,8 +177,10 @@ static bool memerror_ok(const struct rheads* hs, const struct rverdict* Z, const
   if (hi == (size_t)-1) { *why = "position is not the end of an item head reached by a left-to-right scan"; return false; }
   if (refused) return true;
   unsigned mt = hs->ib[hi] >> 5, ai = hs->ib[hi] & 31;
-  if ((mt == 4 || mt == 5) && ai != 31 && hs->arg[hi] > CAP) return true;
-  *why = "no allocation was refused, no declared count exceeds what the allocator could hold, and nesting is within the limit";
+  /* without an observed refusal only a count whose table size is not representable (the multiplication guard, which may
+   * be conservative by a bit or two, fails before the allocator is asked) explains a MEMERROR */
+  if ((mt == 4 || mt == 5) && ai != 31 && hs->arg[hi] >= ((uint64_t)1 << 59)) return true;
+  *why = "the allocator was never refused anything, the declared count is far from overflowing a table size, and nesting is within the limit";
   return false;
 }
 
@@ -440,6 +442,7 @@ static void setup(void) {
   ref_selftest();
   ta_install();
   if (!ta_selftest()) vh_die("track allocator self-test failed");
+  if (!strcmp(O.stage, "bigcount")) CAP = (size_t)1 << 30; /* tables of tens of MiB are granted: "memory permitting" holds */
   ta_set_cap(CAP);
   devnull = fopen("/dev/null", "w");
   if (!devnull) vh_die("cannot open /dev/null");
@@ -759,6 +762,32 @@ static void stage_hugebuf(void) {
   vb_free(&x);
 }
 
+/* ---- stage: bigcount ----
+ * Declared counts between 2^16 and 2^22 with an allocator that grants the table (16..64 MiB): what follows the head —
+ * nothing, a few members, a reserved byte, a stray break — decides the outcome, not the size of the count. */
+static void stage_bigcount(void) {
+  static const uint32_t counts[] = {65537, 1u << 20, (1u << 20) + 1, 1u << 21, (1u << 21) + 1, 3u << 20, 1u << 22};
+  static const char* const ctx_open[] = {"", "9f", "c1", "a100", "bf00", "8201"};
+  static const char* const tails[] = {"", "01", "0102", "01020304050607080910", "1c", "011c", "ff", "01ff", "0102ff", "01020304ff", "f8", "5f01", "7f4100", "81", "a1", "01a1", "1801", "19"};
+  struct vh_buf b = {0};
+  int unit = 0;
+  for (size_t ci = 0; ci < sizeof counts / sizeof counts[0]; ci++)
+    for (int mt = 4; mt <= 5; mt++)
+      for (size_t x = 0; x < sizeof ctx_open / sizeof ctx_open[0]; x++)
+        for (size_t t = 0; t < sizeof tails / sizeof tails[0]; t++, unit++) {
+          if (unit % O.nshards != O.shard) continue;
+          if (mt == 5 && counts[ci] > (1u << 21)) continue; /* map tables are twice as large */
+          vb_reset(&b);
+          for (const char* h = ctx_open[x]; *h; h += 2) { unsigned v; sscanf(h, "%2x", &v); vb_u8(&b, (uint8_t)v); }
+          vb_u8(&b, (uint8_t)(mt << 5 | 26)); vb_be(&b, counts[ci], 4);
+          for (const char* h = tails[t]; *h; h += 2) { unsigned v; sscanf(h, "%2x", &v); vb_u8(&b, (uint8_t)v); }
+          run_input(b.p, b.n);
+          VH_COUNT("bigcount.inputs", 1);
+          VH_MAX("bigcount.max_declared_count", counts[ci]);
+        }
+  vb_free(&b);
+}
+
 static void load_run(void) {
   setup();
   size_t bytesN = O.thorough ? 4 : 3;
@@ -771,6 +800,7 @@ static void load_run(void) {
   else if (!strcmp(st, "deep")) stage_deep();
   else if (!strcmp(st, "seq")) stage_seq();
   else if (!strcmp(st, "hugebuf")) stage_hugebuf();
+  else if (!strcmp(st, "bigcount")) stage_bigcount();
   else vh_die("driver load: unknown stage '%s'", st);
   if (P == 1) vh_set_rule("every enumerated/generated input is run through load, describe, size, serialize, serialize_alloc, copy, release and two streaming passes under ASan+UBSan with CBOR_ASSERT armed; non-trivial = the decoder got past the first head (an item was built, or the failure is a hard error / truncation after at least one complete head); distinct by construction in the exhaustive sweep, by 64-bit hash elsewhere (inputs short enough to be in the sweep are not counted again)");
   else if (P == 2) vh_set_rule("each input is decoded by cbor_load and by the independent RFC 8949 reference decoder; non-trivial = at least one side accepts (tree, read and ownership are then compared); distinct by construction in the exhaustive sweep, by hash elsewhere");
